@@ -102,6 +102,64 @@ func invariants(s entities.Set, wantBody []byte) {
 	sx.Assert(sx.EqBytes(b[20:], wantBody), "serialized-records-equal-reference")
 }
 
+// lengthInvariants: the length bookkeeping alone (no statement about the bytes
+// of a field whose value cannot be encoded).
+func lengthInvariants(s entities.Set) {
+	sum := 0
+	for _, r := range s.GetRecords() {
+		sx.Assert(len(r.GetBuffer()) == r.GetRecordLength(), "record-buffer-is-reported-length")
+		sum += r.GetRecordLength()
+	}
+	sx.Assert(s.GetSetLength() == 4+sum, "set-length-is-4-plus-records")
+	b := serialize(s)
+	sx.Assert(len(b) == 16+s.GetSetLength(), "serialized-length")
+}
+
+// oddAdd: optionally, before the regular adds, an add that goes wrong.
+// (1) template set: a record whose element carries a value is refused by the
+// copying paths - the set must be exactly as before.  (2) data set: a record
+// with a value that cannot be encoded for its element (5-byte MAC address, 16-byte
+// address in an IPv4 element) - it is added (the encoding error surfaces when
+// the record is serialised, see C09), and the length bookkeeping must stay
+// consistent.  The set is then reset and prepared again, so that the regular
+// sequence continues from a clean state on both sets.
+func oddAdd(set, fresh entities.Set, isT bool, id uint16, body []byte) {
+	path := sx.Choose("oddPath", 2)
+	if isT {
+		elems := []entities.InfoElementWithValue{common.Element(common.Draw(common.KU16, "odd", 0)), common.Element(common.Draw(common.KU8, "odd", 0))}
+		if sx.Choose("oddValuePosition", 2) == 1 {
+			tpl, err := entities.DecodeAndCreateInfoElementWithValue(common.IE(common.KU32), nil)
+			sx.Assert(err == nil, "template-element")
+			elems[0] = tpl // the first element is fine, the second is refused
+		}
+		if add(set, path, 1, elems, id) != nil {
+			// (a value that happens to be the zero value counts as empty and is accepted)
+			sx.Assert(set.GetNumberOfRecords() == 0 && len(set.GetRecords()) == 0, "refused-add-left-a-record-in-the-set")
+			invariants(set, body)
+			sx.Reach("refused-add")
+			return
+		}
+		lengthInvariants(set)
+		set.ResetSet()
+		sx.Assert(set.PrepareSet(entities.Template, id) == nil, "prepare-after-odd-add")
+		return
+	}
+	bad := []common.Val{{K: common.KMac, Raw: []byte{1, 2, 3, 4, 5}}, {K: common.KIPv4, Raw: make([]byte, 16)}}[sx.Choose("illTypedValue", 2)]
+	bad.Raw[0] = 0xfe // not an IPv4-mapped address
+	elems := []entities.InfoElementWithValue{common.Element(common.Draw(common.KU16, "odd", 0)), common.Element(bad), common.Element(common.Draw(common.KU8, "odd", 0))}
+	if add(set, path, 1, elems, id) == nil {
+		sx.Assert(set.GetNumberOfRecords() == 1, "record-count")
+		lengthInvariants(set)
+		sx.Reach("ill-typed-add")
+	} else {
+		sx.Assert(set.GetNumberOfRecords() == 0, "refused-add-left-a-record-in-the-set")
+		lengthInvariants(set)
+	}
+	set.ResetSet()
+	t := entities.Data
+	sx.Assert(set.PrepareSet(t, id) == nil, "prepare-after-odd-add")
+}
+
 type step struct {
 	path  int
 	extra int
@@ -200,6 +258,41 @@ func Check_Sequences() {
 	sx.Reach("done")
 }
 
+// Check_OddAdds: on a new or a reused set, an add that goes wrong (see oddAdd),
+// then one regular add through each path: the set behaves like a fresh one.
+func Check_OddAdds() {
+	set := entities.NewSet(false)
+	if sx.Choose("reusedSet", 2) == 1 {
+		sx.Assert(set.PrepareSet(entities.Data, 777) == nil, "prefix-prepare")
+		mk, _ := elemList(menu[1], false, 777)
+		sx.Assert(add(set, 0, 0, mk(), 777) == nil, "prefix-add")
+		set.UpdateLenInHeader()
+		set.ResetSet()
+	}
+	fresh := entities.NewSet(false)
+	isT := sx.Choose("type", 2) == 0
+	t := entities.Data
+	if isT {
+		t = entities.Template
+	}
+	id := sx.U16("id")
+	sx.Assume(id >= 256)
+	sx.Assert(set.PrepareSet(t, id) == nil, "prepare")
+	sx.Assert(fresh.PrepareSet(t, id) == nil, "prepare-fresh")
+	oddAdd(set, fresh, isT, id, nil)
+	sx.Assert(sx.EqBytes(set.GetHeaderBuffer(), fresh.GetHeaderBuffer()), "reused-set-header-differs-from-new-set")
+	path := sx.Choose("path", 3)
+	mk, enc := elemList(menu[1], isT, id)
+	sx.Assert(add(set, path, 1, mk(), id) == nil, "add")
+	sx.Assert(add(fresh, path, 1, mk(), id) == nil, "add-fresh")
+	invariants(set, enc)
+	sx.Assert(set.GetNumberOfRecords() == 1 && fresh.GetNumberOfRecords() == 1, "record-count-after-a-refused-add")
+	set.UpdateLenInHeader()
+	fresh.UpdateLenInHeader()
+	sx.Assert(sx.EqBytes(serialize(set), serialize(fresh)), "reused-set-bytes-differ-from-new-set")
+	sx.Reach("odd-done")
+}
+
 // Check_AddPaths: the same (type, id, elements) through AddRecord,
 // AddRecordWithExtraElements(k) and AddRecordV2 on three fresh sets.
 func Check_AddPaths() {
@@ -217,6 +310,7 @@ func Check_AddPaths() {
 		sx.Assert(sets[i].PrepareSet(t, id) == nil, "prepare")
 	}
 	k := []int{0, 1, 3}[sx.Choose("extra", 3)]
+	reuse := sx.Choose("callerReusesItsSlice", 2) == 1
 	maxElems := 2
 	if sx.Tier() > 0 {
 		maxElems = 3
@@ -234,9 +328,19 @@ func Check_AddPaths() {
 			kinds = menu[4]
 		}
 		mk, _ := elemList(kinds, isT, id)
-		sx.Assert(sets[0].AddRecord(mk(), id) == nil, "AddRecord")
-		sx.Assert(sets[1].AddRecordWithExtraElements(mk(), k, id) == nil, "AddRecordWithExtraElements")
+		e0, e1 := mk(), mk()
+		sx.Assert(sets[0].AddRecord(e0, id) == nil, "AddRecord")
+		sx.Assert(sets[1].AddRecordWithExtraElements(e1, k, id) == nil, "AddRecordWithExtraElements")
 		sx.Assert(sets[2].AddRecordV2(mk(), id) == nil, "AddRecordV2")
+		if reuse && len(e0) > 0 {
+			// the copying paths copy: the caller may reuse its slice for the next
+			// record straight away (the slice-adopting path keeps it, by contract)
+			other := e0[len(e0)-1]
+			for i := range e0 {
+				e0[i], e1[i] = other, other
+			}
+			e0[len(e0)-1], e1[len(e1)-1] = nil, nil
+		}
 	}
 	for i := range sets {
 		sets[i].UpdateLenInHeader()
@@ -250,5 +354,6 @@ func Check_AddPaths() {
 
 var Table = map[string]runner.Entry{
 	"Check_Sequences": {Setup: Setup, Fn: Check_Sequences},
+	"Check_OddAdds":   {Setup: Setup, Fn: Check_OddAdds},
 	"Check_AddPaths":  {Setup: Setup, Fn: Check_AddPaths},
 }
